@@ -97,6 +97,5 @@ def check_fresh_payloads(ctx, rule, module_names, min_sends=1):
                 else:
                     ctx.ok(rule, f"{f.qualname}: in-loop send at {norm(c.func)}", f, c)
     if n < min_sends:
-        from .report import AnalysisError
-        raise AnalysisError(f"{rule}: only {n} in-loop sends found in {module_names} (expected >= {min_sends})")
+        ctx.defer(f"{rule}: only {n} in-loop sends found in {module_names} (expected >= {min_sends})")
     return n
